@@ -96,7 +96,8 @@ pub fn scripts(seed: u64) -> Vec<Script> {
             opts: 0,
             calls: vec![
                 a(encode_bytes(&noise_intra(Hdr::Std(StdHdr::custom(32, 16, false, 0, 5)), seed ^ 4))),
-                a(p_pic(Hdr::Std(StdHdr::custom(32, 16, true, 1, 5)), &[Spec::NotCoded, Spec::Inter((5, 5), false)], 2)),
+                // (vectors whose predictor + differential leaves the base range and wraps)
+                a(encode_bytes(&Pic { hdr: Hdr::Std(StdHdr::custom(32, 16, true, 1, 5)), mbs: vec![Mb::inter((30, -31)), Mb::inter((20, -10))] })),
                 a({
                     let p = Pic { hdr: Hdr::Std(StdHdr::custom(32, 16, true, 2, 5)), mbs: vec![Mb::inter((1, 1)), Mb::Raw(vec![false, true, true, true, false, false, false, false, false, false, false, false, false, false, false, false, false, false])] };
                     encode_bytes(&p)
@@ -188,7 +189,7 @@ pub fn scripts(seed: u64) -> Vec<Script> {
         Script {
             // the options carried over from the first header decide how the second picture's vectors are
             // read: the masks that select the carried-over bits are lazily initialised process-wide state
-            name: "standard: I sub-QCIF with unrestricted vectors switched on in OPPTYPE, P with a plain PTYPE header and vectors beyond the base range, P",
+            name: "standard: I sub-QCIF with unrestricted vectors switched on in OPPTYPE, P with PLUSPTYPE and the extended range (UUI = 1), P with a plain PTYPE header relying on the carried-over options",
             opts: 0,
             calls: {
                 let mut ih = StdHdr::custom(128, 96, false, 0, 6);
@@ -202,7 +203,22 @@ pub fn scripts(seed: u64) -> Vec<Script> {
                     mbs.extend((4..48).map(|i| if i % 5 == 0 { Mb::inter((-31, -31)) } else { Mb::NotCoded }));
                     encode_bytes(&Pic { hdr: Hdr::Std(StdHdr::baseline(1, true, tr, 6)), mbs })
                 };
-                vec![a(encode_bytes(&noise_intra(Hdr::Std(ih), seed ^ 15))), a(far(1)), a(far(2))]
+                // the second picture repeats the PLUSPTYPE header (extended vector range, UUI = 1) with the same
+                // temporal reference as the second picture of the other standard-mode scripts; the third
+                // has a plain PTYPE header and relies on the options carried over
+                let far_plus = {
+                    let mut ph = StdHdr::custom(128, 96, true, 1, 6);
+                    {
+                        let p = ph.plus.as_mut().unwrap();
+                        p.opp.srcfmt = 1;
+                        p.opp.modes = 0b10_0000_0000;
+                        p.uui = 1;
+                    }
+                    let mut mbs = vec![Mb::inter((31, 0)), Mb::inter((10, 0)), Mb::inter((-20, 31)), Mb::inter((0, 9))];
+                    mbs.extend((4..48).map(|i| if i % 5 == 0 { Mb::inter((-31, -31)) } else { Mb::NotCoded }));
+                    encode_bytes(&Pic { hdr: Hdr::Std(ph), mbs })
+                };
+                vec![a(encode_bytes(&noise_intra(Hdr::Std(ih), seed ^ 15))), a(far_plus), a(far(2))]
             },
         },
         Script {
